@@ -36,6 +36,9 @@ type pubParams struct {
 	// CleanSession: the configuration asks for a clean session, which holds
 	// for the first connection only (episodes without restart)
 	CleanSession bool
+	// SlowLink: every packet takes longer than one PauseTimeout to go out,
+	// with progress all along (no fault)
+	SlowLink bool
 }
 
 func sizeOf(c *run.Ctx, bigP float64) int {
@@ -71,6 +74,7 @@ func runPubWorkload(c *run.Ctx, pp pubParams) (*Episode, *pubAnalysis, []*sim.Pu
 	ep := newEpisode(c)
 	defer ep.W.Shutdown()
 	faultMix(c, ep.F, pp.Budget)
+	ep.F.SlowLink = pp.SlowLink
 	if pp.HoldP != 0 {
 		ep.F.PHold = pp.HoldP
 	}
@@ -515,6 +519,7 @@ func init() {
 				BigP:    0.05,
 			}
 			pp.CleanSession = c.Rng.Intn(4) == 0
+			pp.SlowLink = c.Rng.Intn(8) == 0
 			if c.Case%6 == 4 {
 				pp.Volatile = true
 				c.Count("volatile_session_episodes", 1)
